@@ -30,11 +30,13 @@ def pairs(F, prefix):
     return out
 
 
-def grammar_agreement(ctx, rep, P, prefix, floor):
+def grammar_agreement(ctx, rep, P, prefix, floor, only=None):
     F = ctx.facts()
     G = Grammar(F, inline=INLINE)
     n = 0
     for ty, d in sorted(pairs(F, prefix).items()):
+        if only is not None and not re.search(only, ty):
+            continue
         r, w = set(), set()
         for b in d.get("from_reader", []):
             r |= flat(G.sigs(b))
